@@ -88,7 +88,7 @@ def replay_class(name, behaviours, tid0, seed):
     required = [p for p in cls.parameters if not hasattr(cls, p)]
     for beh in behaviours:
         tid += 1
-        objs, last = {}, {}
+        objs, last, built_mode = {}, {}, {}
         skip = False
         out = []
         for op in beh:
@@ -97,8 +97,21 @@ def replay_class(name, behaviours, tid0, seed):
                 ev["mode"] = op["mode"]
                 kwargs = dict(sp.kwargs)
                 args = sp.args() if callable(sp.args) else sp.args
-                if op["mode"] == "unknown":
+                if op["mode"] == "ok2":
+                    if not sp.alt:
+                        skip = True     # no second parameter set registered for this class
+                        break
+                    kwargs.update(sp.alt)
+                elif op["mode"] == "unknown":
                     kwargs["no_such_parameter_xyz"] = 1.0
+                elif op["mode"] == "unpublished":
+                    inherited = [(p, b) for b in cls.__mro__[1:] for p in getattr(b, "parameters", {})
+                                 if p not in cls.parameters and p not in kwargs]
+                    if not inherited:
+                        skip = True     # this class publishes everything its parents publish
+                        break
+                    pname, parent = inherited[0]
+                    kwargs[pname] = getattr(parent, pname, 1.0)
                 elif op["mode"] == "missing":
                     drop = [p for p in required if p in kwargs]
                     if not drop:
@@ -112,10 +125,11 @@ def replay_class(name, behaviours, tid0, seed):
                 try:
                     with contextlib.redirect_stdout(io.StringIO()):
                         o = cls(*args, **kwargs)
-                        if op["mode"] == "ok" and sp.after:
+                        if op["mode"] in ("ok", "ok2") and sp.after:
                             sp.after(o)
                     ev["outcome"] = "ok"
                     objs[op["obj"]] = o
+                    built_mode[op["obj"]] = op["mode"]
                 except Exception as ex:
                     ev["outcome"] = type(ex).__name__
             elif op["op"] == "Call":
@@ -155,7 +169,7 @@ def replay_class(name, behaviours, tid0, seed):
                 # same request as ndarray on a fresh object of the same class (history effects are C06)
                 try:
                     with contextlib.redirect_stdout(io.StringIO()):
-                        ref_obj = sp.build()
+                        ref_obj = sp.build(alt=(built_mode.get(op["obj"]) == "ok2"))
                     ref = call_quiet(ref_obj, to_container(sp, pts, "ndarray"), sp.t)
                     ev["same_as_array"] = bool(same_solution(sol, ref))
                 except Exception:
